@@ -100,7 +100,7 @@ impl Op {
             Op::HOut(p, c, id, k) => format!("hout {p} {c} {id} {k}"),
             Op::HReq(p, c, id) => format!("hreq {p} {c} {id}"),
             Op::HIn(p, c, id, k) => format!("hin {p} {c} {id} {k}"),
-            Op::RealFail(p, c, k) => format!("realfail {p} {c} {k}"),
+            Op::RealFail(p, c, k) => format!("hfail {p} {c} {k}"),
         }
     }
     fn parse(t: &[String]) -> Op {
@@ -113,7 +113,7 @@ impl Op {
             "hout" => Op::HOut(n(1), n(2), n(3) as u64, intern(&t[4])),
             "hreq" => Op::HReq(n(1), n(2), n(3) as u64),
             "hin" => Op::HIn(n(1), n(2), n(3) as u64, intern(&t[4])),
-            "realfail" => Op::RealFail(n(1), n(2), intern(&t[3])),
+            "realfail" | "hfail" => Op::RealFail(n(1), n(2), intern(&t[3])),
             o => panic!("replay: unknown op {o}"),
         }
     }
@@ -129,7 +129,6 @@ struct World {
     /// real handlers (class realh), by (peer, conn)
     handlers: Vec<(usize, usize, H)>,
     real: bool,
-    last_pre_count: usize,
     /// buffered protocol lines of the current case
     lines: Vec<String>,
     /// environment's knowledge (Swarm + handlers): open connections, requests a handler holds,
@@ -167,7 +166,6 @@ impl World {
             open: vec![0; NP],
             handlers: vec![],
             real,
-            last_pre_count: 0,
             lines: vec![],
             env_open: vec![],
             env_conn_used: vec![],
@@ -305,6 +303,12 @@ impl World {
             }
             Op::Est(p, c, outb) => {
                 let peer = self.peers[p];
+                let queued: Vec<u64> = (1..=self.issued)
+                    .filter(|id| {
+                        self.b.is_pending_outbound(&peer, &hk::outbound_id(*id))
+                            && !self.env_out.iter().any(|x| x.0 == p && x.2 == *id)
+                    })
+                    .collect();
                 let cid = ConnectionId::new_unchecked(c);
                 let (a_local, a_remote) = (addr(0), addr(c));
                 let (mut h, cp) = if outb {
@@ -330,7 +334,8 @@ impl World {
                 }));
                 self.open[p] += 1;
                 if self.real {
-                    // the real handler keeps its preloaded messages: count its stream requests only
+                    // the real handler keeps its preloaded messages: count its stream requests; the
+                    // ids are the ones that were queued for `p` (pending, held by no handler)
                     let mut cx = Context::from_waker(&self.waker);
                     let mut n = 0;
                     while let Poll::Ready(e) = h.poll(&mut cx) {
@@ -338,7 +343,8 @@ impl World {
                             n += 1;
                         }
                     }
-                    self.last_pre_count = n;
+                    pre = queued;
+                    assert_eq!(n, pre.len(), "handler asked for {n} streams, {} requests were queued", pre.len());
                     self.handlers.push((p, c, h));
                 } else {
                     pre = self.preloaded(&mut h);
@@ -402,27 +408,32 @@ impl World {
         (ret, pre, r.err())
     }
 
-    /// class realh: let the real handler of (p, c) fail its oldest requested stream; the event it
-    /// produces (if any) is returned as the concrete op to perform.
+    /// class realh, handler-level op `hfail p c k`: the negotiation of the oldest outbound stream the
+    /// real handler of (p, c) has requested fails with `k` while the connection stays open.
+    /// impl line: `hev=<kind>:<id>` = the event the handler then reports, `hev=none` if it reports
+    /// nothing.  The event (if any) is returned as the behaviour-level op to perform next.
     fn real_fail(&mut self, p: usize, c: usize, k: &'static str) -> Option<Op> {
+        self.lines.push(format!("op hfail {p} {c} {k}"));
         let waker = self.waker.clone();
         let mut cx = Context::from_waker(&waker);
-        let h = self.handlers.iter_mut().find(|h| h.0 == p && h.1 == c)?;
+        let Some(h) = self.handlers.iter_mut().find(|h| h.0 == p && h.1 == c) else {
+            self.lines.push("impl hev=none".into());
+            return None;
+        };
         // let the handler request streams for everything it holds
-        let mut requested = 0;
         let mut produced = vec![];
         loop {
             match h.2.poll(&mut cx) {
-                Poll::Ready(ConnectionHandlerEvent::OutboundSubstreamRequest { .. }) => requested += 1,
                 Poll::Ready(ConnectionHandlerEvent::NotifyBehaviour(e)) => produced.push(e),
                 Poll::Ready(_) => {}
                 Poll::Pending => break,
             }
         }
-        let _ = requested;
-        assert!(produced.is_empty(), "handler produced an event without a stream outcome");
-        // the harness does not know how many streams are outstanding; `requested_outbound` being
-        // empty makes the handler panic (`expect`), which we treat as "nothing to fail".
+        if !produced.is_empty() {
+            let (kind, id) = hk::ev_kind(&produced[0]);
+            self.lines.push(format!("impl hev=spontaneous:{kind}:{id}"));
+            return None;
+        }
         let r = hcore::guarded(|| {
             h.2.on_connection_event(ConnectionEvent::DialUpgradeError(DialUpgradeError {
                 info: (),
@@ -433,7 +444,8 @@ impl World {
                 },
             }))
         });
-        if r.is_err() {
+        if let Err(m) = r {
+            self.lines.push(format!("impl hev=panic:{m}"));
             return None;
         }
         match h.2.poll(&mut cx) {
@@ -443,12 +455,19 @@ impl World {
                     "outTimeout" => "timeout",
                     "outUnsupported" => "unsupported",
                     "outStreamFailed" => "io",
-                    other => panic!("unexpected handler event {other}"),
+                    "response" => "response",
+                    other => {
+                        self.lines.push(format!("impl hev=other:{other}:{id}"));
+                        return None;
+                    }
                 };
-                assert_eq!(k, k2, "handler reported a different failure kind");
+                self.lines.push(format!("impl hev={k2}:{id}"));
                 Some(Op::HOut(p, c, id, k2))
             }
-            _ => panic!("handler did not report the failed negotiation"),
+            _ => {
+                self.lines.push("impl hev=none".into());
+                None
+            }
         }
     }
 
@@ -475,7 +494,9 @@ impl World {
     /// only for a request the handler of that connection holds; `Request` ids are fresh.
     fn in_contract(&self, op: &Op) -> bool {
         match op {
-            Op::Send(_) | Op::DialFail(..) | Op::RealFail(..) => true,
+            Op::Send(_) | Op::DialFail(..) => true,
+            // a negotiation can only fail for a stream the handler asked for
+            Op::RealFail(p, c, _) => self.env_out.iter().any(|x| x.0 == *p && x.1 == *c),
             Op::Est(_, c, _) => !self.env_conn_used.contains(c),
             Op::Closed(p, c) => self.env_open.contains(&(*p, *c)),
             Op::HOut(p, c, id, _) => self.env_out.contains(&(*p, *c, *id)),
@@ -547,11 +568,7 @@ impl World {
                 handed.push((t[1].parse().unwrap(), t[2].parse().unwrap(), t[3].parse().unwrap()));
             }
         }
-        let pre_tok = if self.real {
-            if let Op::Est(..) = op { format!("n{}", self.last_pre_count) } else { "n0".into() }
-        } else {
-            hcore::list(&pre)
-        };
+        let pre_tok = hcore::list(&pre);
         self.lines.push(format!(
             "impl ret={} pre={} evs={} panic={} po={} pi={}",
             ret.map(|x| x.to_string()).unwrap_or("-".into()),
@@ -563,6 +580,22 @@ impl World {
         ));
         self.env_update(&op, &handed);
         handed
+    }
+
+    /// `step` under `catch_unwind`: a panic of library or harness code outside the guarded calls
+    /// becomes the implementation's output of that op (`impl harness-panic <msg>`, a Spec failure)
+    /// and ends the case.  Returns false when the case must stop.
+    fn step_guarded(&mut self, op: &Op) -> bool {
+        match hcore::guarded(|| self.step(op)) {
+            Ok(_) => true,
+            Err(m) => {
+                if !self.lines.last().map(|l| l.starts_with("op ")).unwrap_or(false) {
+                    self.lines.push(format!("op {}", op.tok()));
+                }
+                self.lines.push(format!("impl harness-panic {m}"));
+                false
+            }
+        }
     }
 
     fn flush(&mut self, out: &mut Out) {
@@ -580,7 +613,13 @@ fn run_case(out: &mut Out, idx: u64, cls: &str, nt: bool, ops: &[Op], strict: bo
         if strict && !w.in_contract(op) {
             return false;
         }
-        w.step(op);
+        // in a realh replay the `hout` lines are regenerated by the `hfail` ops
+        if real && !strict && matches!(op, Op::HOut(..)) {
+            continue;
+        }
+        if !w.step_guarded(op) {
+            break;
+        }
     }
     out.case(idx, &format!("{cls} nt={} dbg={} np={NP} real={}", nt as u8, cfg!(debug_assertions) as u8, real as u8));
     w.flush(out);
@@ -672,11 +711,11 @@ fn random_case(out: &mut Out, idx: u64, rng: &mut Rng, real: bool) {
         } else if roll < 76 {
             // outbound completion
             if real {
-                if w.env_open.is_empty() {
+                if w.env_out.is_empty() {
                     Op::Send(p)
                 } else {
-                    let (p, c) = *rng.pick(&w.env_open);
-                    Op::RealFail(p, c, *rng.pick(&["timeout", "unsupported", "io"]))
+                    let (p, c, _) = *rng.pick(&w.env_out);
+                    Op::RealFail(p, c, *rng.pick(&["timeout", "unsupported", "io", "io"]))
                 }
             } else if w.env_out.is_empty() {
                 Op::Send(p)
@@ -706,8 +745,12 @@ fn random_case(out: &mut Out, idx: u64, rng: &mut Rng, real: bool) {
         } else {
             Op::Send(p)
         };
-        assert!(w.in_contract(&op), "generator produced an out-of-contract op {op:?}");
-        w.step(&op);
+        if !w.in_contract(&op) {
+            continue;
+        }
+        if !w.step_guarded(&op) {
+            break;
+        }
     }
     out.case(idx, &format!("{cls} nt=1 dbg={} np={NP} real={}", cfg!(debug_assertions) as u8, real as u8));
     w.flush(out);
@@ -739,6 +782,22 @@ pub fn run(args: &Args, out: &mut Out) {
         }
         for len in (l8 + 1)..=l5 {
             enumerate(out, &mut idx, &core5, len, "exh5");
+        }
+    }
+    // handler-level: every in-contract sequence with the REAL handler: negotiation failures of every
+    // kind while the connection stays open, followed by further requests on the same connection
+    if args.count == 0 {
+        let hl = vec![
+            Op::Send(0),
+            Op::Est(0, 1, true),
+            Op::RealFail(0, 1, "io"),
+            Op::RealFail(0, 1, "timeout"),
+            Op::RealFail(0, 1, "unsupported"),
+            Op::Closed(0, 1),
+            Op::DialFail(Some(0), 9, "noaddr"),
+        ];
+        for len in 1..=(if args.thorough { 7 } else { 6 }) {
+            enumerate(out, &mut idx, &hl, len, "realh");
         }
     }
     let n = args.n(1500, 40_000);
